@@ -839,7 +839,8 @@ def run_bam(tier, seed, spec, col):
             return out
 
         args = ["assemble", "--bam"] + ds.bams + ["--targets", ds.bed, "--variants", ds.vcf, "--reference", ds.fasta, "--ploidy", str(ploidy),
-                                                  "--mcmc-steps", "200", "--mcmc-burn", "100", "--haplotype-posterior-threshold", repr(thr)]
+                                                  "--mcmc-steps", "200", "--mcmc-burn", "100", "--haplotype-posterior-threshold", repr(thr),
+                                                  "--mcmc-seed", str(int(rng.choice([0, 5, 42]))), "--inbreeding", repr(float(rng.choice([0.0, 0.0, 0.2])))]
         with monitors.patched((ASM, "call_posterior_haplotypes", spy)):
             out, exc = cli.run_inproc(args)
         case = {"kind": "bam", "dataset": [seed, spec["shard"], d], "threshold": thr}
